@@ -11,18 +11,9 @@ EXTENDS SoyPO, Json
 CONSTANTS MaxParts, MaxInner, Shard, NShards, Locales
 VARIABLE pcase
 
-RECURSIVE SumSeq(_)
-SumSeq(q) == IF q = <<>> THEN 0 ELSE Head(q) + SumSeq(Tail(q))
-RECURSIVE SumSeqs(_)
-SumSeqs(q) == IF q = <<>> THEN 0 ELSE SumSeq(Head(q)) + SumSeqs(Tail(q))
-ShardOf(d) ==
-  IF d.kind = "flat" THEN SumSeq(d.ix) % NShards
-  ELSE IF d.kind = "extra" THEN d.i % NShards
-  ELSE (d.subj + d.cs + SumSeqs(d.cb) + SumSeq(d.db)) % NShards
-
 Family == {d \in POFamFlat(MaxParts) \cup POFamPlural(MaxInner) : PODomain(POFamBody(d))} \cup POFamInvalid \cup POFamExtra
 
-Init == pcase \in {d \in Family : ShardOf(d) = Shard}
+Init == pcase \in {d \in Family : POShardOf(d, NShards) = Shard}
 Next == UNCHANGED pcase
 
 LocSeq == SetToSeq(Locales)
@@ -45,13 +36,17 @@ CaseRecord(d) ==
                   [loc |-> LocSeq[l], names |-> POCatalogueLocales(LocSeq[l]), forms |-> POPluralForms(LocSeq[l]),
                    idt |-> POTranslate("id", e, LocSeq[l]), rev |-> POTranslate("rev", e, LocSeq[l])]],
         exp |-> [i \in 1..Len(ns) |->
-                  LET env == POEnv(ns[i]) IN
+                  LET env == POEnv(ns[i])
+                      \* nothing about a plural-free message depends on the locale
+                      flatIdt == Outcome(PORoundTrip(m, "id", "en", env))
+                      flatRev == Outcome(PORoundTrip(m, "rev", "en", env))
+                      pl == MsgHasPlural(body) IN
                   [n |-> ns[i],
                    src |-> Outcome(PORenderSrc(body, env)),
                    loc |-> [l \in 1..Len(LocSeq) |->
                               [loc |-> LocSeq[l],
-                               idt |-> Outcome(PORoundTrip(m, "id", LocSeq[l], env)),
-                               rev |-> Outcome(PORoundTrip(m, "rev", LocSeq[l], env))]]]]]
+                               idt |-> IF pl THEN Outcome(PORoundTrip(m, "id", LocSeq[l], env)) ELSE flatIdt,
+                               rev |-> IF pl THEN Outcome(PORoundTrip(m, "rev", LocSeq[l], env)) ELSE flatRev]]]]]
 
 Export == PrintT(ToJson(CaseRecord(pcase)))
 =============================================================================
